@@ -552,7 +552,7 @@ func init() {
 		Required: []string{"calls", "tokens", "refills", "shiftlen", "peek.at_end", "hook.pool.snapshots", "histories.held_across_refill", "memory.pairs", "probes"},
 		Streams: []fw.Stream{
 			{Name: "probes", Quick: 1, Thorough: 1, Run: c13Probes},
-			{Name: "history", Quick: 1500000, Thorough: 40000000, Run: c13Run},
+			{Name: "history", Quick: 1500000, Thorough: 80000000, Run: c13Run},
 			{Name: "memory", Quick: 32, Thorough: 256, Run: c13Memory},
 		},
 	})
